@@ -66,6 +66,14 @@ theorem C17_crlf_at_offset (cs : CharSpec) (hcs : CrlfSpec cs) (s : List Char) (
     (off off' : Nat) :
     (lexFrom cs off' (crlf s)).map tokAbs = (lexFrom cs off s).map tokAbs := lexFrom_crlf cs hcs s hs off off'
 
+/-- How the texts that are not preserved change (`CrlfToks`: the two streams have the same length
+    and corresponding tokens are related by `CrlfTok`): a newline token becomes `"\r\n"` (it stays
+    `"\n"` only directly after a line comment, which has then taken the CR), a line comment keeps
+    its text or gets one CR appended, the text of a block comment is converted like the input,
+    all other tokens keep their text. -/
+theorem C17_crlf_texts (cs : CharSpec) (hcs : CrlfSpec cs) (s : List Char) (hs : CrlfSafe s) (off off' : Nat) :
+    CrlfToks (lexFrom cs off' (crlf s)) (lexFrom cs off s) := lexFrom_crlf_toks cs hcs s hs off off'
+
 /-- Consequence for the text of steps, notes and component names: under the conditions of
     `C17_crlf`, every run of tokens (tokens `i … i+j-1` of the stream) has the same visible
     characters before and after CRLF conversion (a newline token is one space either way, comments
